@@ -193,7 +193,7 @@ func evalC19(cs *c19Case) (vs []*Violation) {
 	msg, nh, want, cid, via := cs.render()
 	add := func(rule, class, detail string) {
 		c := mkCase("C19", "GetMsgSig", &Cfg{HdrCap: cs.Cap, ValCap: -1}, msg, nil)
-		c.Extra = map[string]any{"case": cs}
+		c.Extra = map[string]any{"case": *cs} // a copy: callers re-use their case variables
 		vs = append(vs, &Violation{Property: "C19", Site: "GetMsgSig", Rule: rule, Class: class, Detail: detail, Case: c})
 	}
 	defer recoverTo3(add)
